@@ -1742,6 +1742,250 @@ def isometrize_flagged(mk, method):
     mk.eq("isometrize: unflagged tensor untouched", t2["C"].transpose(*tn["C"].inds).data, tn["C"].data)
 
 
+# ====================================================================== M. gauge dictionaries on size-1 bonds / multibonds holding one
+
+# size-1 bonds carrying a (non-unit) simple-update weight: raw singular values stored with renorm=False, user weights
+GEOMS["one2"] = ([("A", "as"), ("B", "sb")], dict(a=2, b=3, s=1), "ab")
+GEOMS["oneone2"] = ([("A", "ast"), ("B", "stb")], dict(a=2, b=2, s=1, t=1), "ab")
+GEOMS["onemulti2"] = ([("A", "axs"), ("B", "xsb")], dict(a=2, b=2, x=2, s=1), "ab")
+GEOMS["one3"] = ([("A", "as"), ("B", "sby"), ("C", "yc")], dict(a=2, b=2, c=2, s=1, y=2), "abc")
+GEOMS["oneone3"] = ([("A", "ast"), ("B", "stby"), ("C", "yc")], dict(a=2, b=2, c=2, s=1, t=1, y=2), "abc")
+GEOMS["onemulti3"] = ([("A", "axs"), ("B", "xsby"), ("C", "ytc"), ("D", "td")], dict(a=2, b=2, c=2, d=2, x=2, s=1, y=2, t=1), "abcd")
+
+_G1_OPS = {
+    # LAPACK-free
+    "fuse_squeeze": "free", "fuse_squeeze_BA": "free", "fuse_nosqueeze": "free", "make_single_bond": "free",
+    "fuse_multibonds": "free", "fuse_multibonds_": "free", "fuse_then_fuse_squeeze": "free", "squeeze_all_pairs": "free",
+    "insert_squeeze_remove": "free",
+    # QR / SVD based
+    "simple_bond_then_squeeze": "lapack", "compress_all": "lapack", "compress_all_simple": "lapack", "gauge_all_simple": "lapack",
+    "compress_between": "lapack", "canonize_between": "lapack", "contract_compressed": "lapack", "contract_around": "lapack",
+}
+
+
+def _g1_params():
+    out = []
+    for g in ("one2", "oneone2", "onemulti2", "one3", "oneone3", "onemulti3"):
+        for o, kind in _G1_OPS.items():
+            two = g.endswith("2")
+            if kind == "lapack" and not two and o not in ("simple_bond_then_squeeze", "contract_compressed", "canonize_between"):
+                continue            # several SVD contracts on three / four tensors: beyond the certificate budget
+            quick = (kind == "free" and g in ("one3", "oneone2", "onemulti3", "one2")) or \
+                    (g, o) in {("one2", "simple_bond_then_squeeze"), ("one2", "compress_all"), ("oneone2", "compress_all_simple"),
+                               ("one2", "gauge_all_simple"), ("onemulti2", "compress_between"), ("one2", "canonize_between"),
+                               ("one3", "contract_compressed"), ("oneone2", "contract_compressed"), ("one3", "simple_bond_then_squeeze")}
+            out.append({"geom": g, "op": o, "_tiers": _Q if quick else _T,
+                        "_mandatory": kind == "free" or two})
+    return out
+
+
+@obligation(PROP, params=_g1_params(), rounds=2, rounds2=3, wall_s=200, timeout_s=280, max_rows=40000)
+def gauged_size1_bonds(mk, geom, op):
+    """every rewrite that takes a simple-update gauge dictionary and may fuse or squeeze, on networks with
+    a size-1 bond (alone, doubled, or inside a multibond) that carries an arbitrary positive weight:
+    the (network, gauges) pair - the network with every stored weight re-absorbed - denotes the same
+    tensor before and after; gauge keys stay labels of the network, gauge sizes stay the label sizes"""
+    mk.encodes(tc.tensor_fuse_squeeze, tc.tensor_make_single_bond, tc.tensor_multifuse, tc.TensorNetwork.fuse_multibonds,
+               tc.tensor_gauge_simple_bond, tc.TensorNetwork.compress_all, tc.TensorNetwork.compress_all_simple,
+               tc.TensorNetwork.gauge_all_simple, tc.TensorNetwork._compress_between_tids, tc.tensor_compress_bond,
+               tc.tensor_canonize_bond, tc.TensorNetwork.gauge_simple_insert, tc.TensorNetwork.gauge_simple_remove,
+               tc.TensorNetwork.contract_compressed, tc.TensorNetwork._contract_compressed_tid_sequence)
+    lapack = _G1_OPS[op] == "lapack"
+    tn, sizes, out = build(mk, geom, kind="real" if lapack else "cplx")
+    inner = [ix for ix in tn.ind_map if ix not in out]
+    gauges = _gauges_for(mk, tn, inner)
+    want = dense_gauged(tn, out, gauges)
+    t2 = tn.copy()
+    g2 = dict(gauges)
+    ta, tb = t2["A"], t2["B"]
+    scalar = None
+    try:
+        if op == "fuse_squeeze":
+            tc.tensor_fuse_squeeze(ta, tb, gauges=g2)
+        elif op == "fuse_squeeze_BA":
+            tc.tensor_fuse_squeeze(tb, ta, gauges=g2)
+        elif op == "fuse_nosqueeze":
+            tc.tensor_fuse_squeeze(ta, tb, squeeze=False, gauges=g2)
+        elif op == "make_single_bond":
+            tc.tensor_make_single_bond(ta, tb, gauges=g2)
+        elif op == "fuse_multibonds":
+            t2 = tn.fuse_multibonds(gauges=g2)
+        elif op == "fuse_multibonds_":
+            t2.fuse_multibonds_(gauges=g2)
+        elif op == "fuse_then_fuse_squeeze":
+            t2.fuse_multibonds_(gauges=g2)
+            tc.tensor_fuse_squeeze(ta, tb, gauges=g2)
+        elif op == "squeeze_all_pairs":
+            # what the compressed contraction does before every step: fuse + squeeze every neighbouring pair
+            for tid in list(t2.tensor_map):
+                for tid_n in list(t2._get_neighbor_tids(tid)):
+                    tc.tensor_fuse_squeeze(t2.tensor_map[tid], t2.tensor_map[tid_n], gauges=g2)
+        elif op == "insert_squeeze_remove":
+            # absorb the gauges, squeeze the size-1 bonds of the plain network, nothing left to re-absorb
+            t2.gauge_simple_insert(g2, remove=True)
+            t2.squeeze_(exclude=out)
+        elif op == "simple_bond_then_squeeze":
+            # the raw (unnormalised) singular values stored by the simple-update step are the weight of the bond
+            g2 = {k: v for k, v in g2.items() if k not in ta.inds or k not in tb.inds}
+            want = dense_gauged(tn, out, g2)
+            tc.tensor_gauge_simple_bond(ta, tb, g2, smudge=0.0)
+            mk.eq(f"{op}: (network, gauges) after tensor_gauge_simple_bond(renorm=False)",
+                  dense_gauged(t2, out, {k: v for k, v in g2.items() if k in t2.ind_map}), want)
+            tc.tensor_fuse_squeeze(ta, tb, gauges=g2)
+        elif op == "compress_all":
+            t2 = tn.compress_all(cutoff=0.0, canonize=False, gauges=g2, gauge_smudge=0.0)
+        elif op == "compress_all_simple":
+            t2 = tn.compress_all_simple(cutoff=0.0, max_iterations=1, smudge=0.0, gauges=g2)
+        elif op == "gauge_all_simple":
+            t2 = tn.gauge_all_simple(max_iterations=1, smudge=0.0, gauges=g2)
+        elif op == "compress_between":
+            t2.compress_between("A", "B", cutoff=0.0, gauges=g2, gauge_smudge=0.0)
+        elif op == "canonize_between":
+            t2.canonize_between("A", "B", gauges=g2, gauge_smudge=0.0)
+        elif op in ("contract_compressed", "contract_around"):
+            # a finite bond cap that never truncates here: the fuse / squeeze bookkeeping runs, the gauges are
+            # re-absorbed at the end; the result is the plain gauged value
+            if op == "contract_compressed":
+                r = tn.contract_compressed(optimize="greedy", max_bond=64, cutoff=0.0, gauges=g2, output_inds=out,
+                                           tree_gauge_distance=0, gauge_smudge=0.0)
+            else:
+                r = tn.contract_around("A", max_bond=64, cutoff=0.0, gauges=g2, tree_gauge_distance=0, gauge_smudge=0.0)
+            if isinstance(r, qtn.TensorNetwork):
+                t2, g2 = r, {}
+            elif isinstance(r, qtn.Tensor):
+                t2, g2 = qtn.TensorNetwork([r]), {}
+                t2.exponent = 0.0
+            else:
+                scalar = r
+    except P.Unsupported as e:
+        raise Skip(f"{op}: {e}")
+    lab = f"{op} with gauges on {inner}"
+    if scalar is not None:
+        mk.eq(f"{lab}: gauged value", scalar, want)
+        return
+    keys_ok = set(g2) <= set(t2.ind_map)
+    mk.same(f"{lab}: remaining gauge keys are labels of the network", keys_ok, True)
+    if keys_ok:
+        mk.same(f"{lab}: gauge sizes are the label sizes", all(len(np.asarray(v).reshape(-1)) == t2.ind_size(k) for k, v in g2.items()), True)
+    mk.same(f"{lab}: outer labels", all(o in t2.ind_map and t2.ind_size(o) == sizes[o] for o in out), True)
+    mk.same(f"{lab}: no new dangling label", set(t2.outer_inds()) <= set(out), True)
+    if op in ("contract_compressed", "contract_around"):
+        # the exponent of the receiver is part of the value
+        mk.eq(f"{lab}: result == gauged value of the receiver", dense(t2, out), want)
+    else:
+        mk.eq(f"{lab}: (network, gauges) denotes the same tensor",
+              dense_gauged(t2, out, {k: np.asarray(v).reshape(-1) for k, v in g2.items() if k in t2.ind_map}), want)
+    if op.startswith("fuse_squeeze") or op in ("fuse_then_fuse_squeeze", "squeeze_all_pairs", "simple_bond_then_squeeze"):
+        sh = [ix for ix in t2["A"].inds if ix in t2["B"].inds]
+        mk.same(f"{lab}: at most one label joins A and B, none of size 1", (len(sh) <= 1, [ix for ix in sh if t2.ind_size(ix) == 1]), (True, []))
+
+
+# ====================================================================== N. requested outputs that are also bonds (hyper outputs)
+
+# networks on which each pass FIRES and a requested output label is at the same time a bond: shared by exactly the two
+# tensors of a pair / by tensors of a loop / by a structured tensor and its neighbour (what diagonal_reduce leaves behind)
+HO_GEOMS = {
+    "ho_pair": ([("A", "ahx", "g"), ("B", "xhb", "g")], dict(a=2, b=2, h=2, x=3), "abh"),
+    "ho_multi": ([("A", "ahxy", "g"), ("B", "xyhb", "g")], dict(a=2, b=2, h=2, x=2, y=2), "abh"),
+    "ho_pair3": ([("A", "ahx", "g"), ("B", "xhby", "g"), ("C", "yc", "g")], dict(a=2, b=2, c=2, h=2, x=3, y=2), "abch"),
+    "ho_chain": ([("A", "ah", "g"), ("B", "hby", "g"), ("C", "yc", "g")], dict(a=2, b=2, c=2, h=2, y=2), "abch"),
+    "ho_only": ([("A", "hx", "g"), ("B", "xh", "g")], dict(h=2, x=3), "h"),
+    "ho_loop": ([("A", "axz", "g"), ("B", "xby", "g"), ("C", "yz", "g")], dict(a=2, b=2, x=2, y=2, z=2), "abx"),
+    "ho_loop2": ([("A", "axz", "g"), ("B", "xby", "g"), ("C", "yz", "g")], dict(a=2, b=2, x=2, y=2, z=2), "abxz"),
+    "ho_diag": ([("A", "ah", "g"), ("D", "hy", "d01"), ("B", "yb", "g")], dict(a=2, b=2, h=2, y=2), "abh"),
+    "ho_diag2": ([("A", "ay", "g"), ("D", "yh", "d01"), ("B", "hb", "g")], dict(a=2, b=2, h=2, y=2), "abh"),
+    "ho_anti": ([("A", "ah", "g"), ("X", "hy", "x01"), ("B", "yb", "g")], dict(a=2, b=2, h=2, y=2), "abh"),
+    "ho_anti2": ([("A", "ay", "g"), ("X", "yh", "x01"), ("B", "hb", "g")], dict(a=2, b=2, h=2, y=2), "abh"),
+    "ho_col": ([("A", "ah", "g"), ("V", "hy", "c1=1"), ("B", "yb", "g")], dict(a=2, b=2, h=2, y=2), "abh"),
+    "ho_col0": ([("A", "ah", "g"), ("V", "hy", "c0=1"), ("B", "yb", "g")], dict(a=2, b=2, h=2, y=2), "abh"),
+    "ho_copy": ([("A", "ax", "g"), ("K", "xhz", "copy", 1), ("B", "hb", "g"), ("C", "zc", "g")], dict(a=2, b=2, c=2, x=2, h=2, z=2), "abch"),
+}
+SGEOMS.update(HO_GEOMS)
+
+# pass -> networks on which it fires (others: must leave the value alone all the same)
+_HO_FIRES = {
+    "R": ["ho_pair", "ho_chain", "ho_loop", "ho_only", "ho_diag", "ho_copy", "ho_pair3"],
+    "D": ["ho_diag", "ho_diag2", "ho_copy", "ho_pair"],
+    "A": ["ho_anti", "ho_anti2", "ho_pair"],
+    "C": ["ho_col", "ho_col0", "ho_pair"],
+    "S": ["ho_pair", "ho_chain"],
+    "P": ["ho_pair", "ho_multi", "ho_pair3", "ho_only", "ho_chain", "ho_diag"],
+    "L": ["ho_loop", "ho_loop2", "ho_pair"],
+    "F:ADCR": ["ho_diag", "ho_anti", "ho_col", "ho_copy", "ho_pair"],
+    "F:ADCRP": ["ho_pair", "ho_diag"],
+    "F:P": ["ho_pair", "ho_multi"],
+    "F:PR": ["ho_pair", "ho_pair3"],
+    "F:RPL": ["ho_loop", "ho_pair3"],
+    "F:DP": ["ho_diag2", "ho_pair"],
+    "F:L": ["ho_loop"],
+    "F:ADCRSLP": ["ho_pair", "ho_loop"],
+    "compress_simplify": ["ho_pair", "ho_diag", "ho_loop"],
+}
+_HO_QUICK = {("R", "ho_pair"), ("R", "ho_chain"), ("R", "ho_loop"), ("D", "ho_diag"), ("D", "ho_diag2"), ("D", "ho_copy"), ("A", "ho_anti"),
+             ("A", "ho_anti2"), ("C", "ho_col"), ("C", "ho_col0"), ("S", "ho_pair"), ("P", "ho_pair"), ("P", "ho_multi"), ("P", "ho_only"),
+             ("P", "ho_pair3"), ("L", "ho_loop"), ("L", "ho_loop2"), ("F:ADCR", "ho_diag"), ("F:ADCR", "ho_copy"), ("F:ADCRP", "ho_pair"),
+             ("F:P", "ho_multi"), ("F:PR", "ho_pair"), ("F:RPL", "ho_loop"), ("F:DP", "ho_diag2"), ("F:L", "ho_loop"),
+             ("compress_simplify", "ho_pair"), ("compress_simplify", "ho_diag"), ("R", "ho_only")}
+
+
+@obligation(PROP, params=[{"p": p, "geom": g, "_tiers": _Q if (p, g) in _HO_QUICK else _T,
+                           "_mandatory": not (p in ("F:ADCRSLP", "F:RPL") or (p, g) in {("P", "ho_pair3"), ("F:PR", "ho_pair3")})}
+                          for p, gs in _HO_FIRES.items() for g in gs],
+            rounds=2, rounds2=3, max_paths=300, wall_s=200, timeout_s=280, max_rows=40000, exc_is_violation=True, allow_exc=(P.Unsupported,))
+def hyper_output_pass(mk, p, geom):
+    """every simplification pass that accepts `output_inds` (rank_simplify, diagonal_reduce, antidiag_gauge,
+    column_reduce, pair_simplify, loop_simplify, full_simplify with several sequences, compress_simplify; and
+    split_simplify, which takes none), called with EXPLICIT outputs that contain a label which is also a bond
+    (a hyper output), on networks where the pass fires: the tensor over exactly the requested labels is kept,
+    every requested label survives with its size, plain and in-place spellings"""
+    mk.encodes(tc.TensorNetwork.rank_simplify, tc.TensorNetwork.diagonal_reduce, tc.TensorNetwork.antidiag_gauge,
+               tc.TensorNetwork.column_reduce, tc.TensorNetwork.split_simplify, tc.TensorNetwork.pair_simplify,
+               tc.TensorNetwork.loop_simplify, tc.TensorNetwork.full_simplify, tc.TensorNetwork.compress_simplify,
+               tc.TensorNetwork.compute_contracted_inds, tc.tensor_fuse_squeeze)
+    if p == "compress_simplify" and mk.sym:
+        mk.note("numeric-only: compress_simplify truncates with atol=1e-6 and sorts by a hierarchical clustering of the data")
+        mk.same("numeric-only cell", True, True)
+        return
+    tn, sizes, out = sbuild(mk, geom, kind="pos" if mk.sym else "real")
+    want = dense(tn, out)
+    before = shape_summary(tn)
+    if p == "compress_simplify":
+        t2 = tn.compress_simplify(output_inds=out, atol=1e-10)
+        check_value(mk, "compress_simplify(output_inds=hyper outputs)", t2, out, want, sizes)
+        return
+    name = {"R": "rank_simplify", "D": "diagonal_reduce", "A": "antidiag_gauge", "C": "column_reduce", "S": "split_simplify",
+            "P": "pair_simplify", "L": "loop_simplify"}.get(p, "full_simplify")
+    t2 = apply_pass(tn, p, out, atol=0.0)
+    lab = f"{name}{'(' + repr(p[2:]) + ')' if p.startswith('F:') else ''} with output_inds={out}"
+    mk.note(f"{geom}: {lab} (tensors, indices, entries) {before} -> {shape_summary(t2)}")
+    check_value(mk, lab, t2, out, want, sizes)
+    check_flags(mk, lab, t2)
+    # in-place spelling, outputs given as a list in another order
+    t3 = tn.copy()
+    oo = list(reversed(out))
+    if p.startswith("F:"):
+        r = t3.full_simplify_(p[2:], output_inds=oo, atol=0.0)
+    elif p == "S":
+        r = t3.split_simplify_(atol=0.0)
+    elif p in ("P", "L"):
+        r = getattr(t3, name + "_")(output_inds=oo, cutoff=0.0)
+    elif p == "R":
+        r = t3.rank_simplify_(output_inds=oo)
+    else:
+        r = getattr(t3, name + "_")(output_inds=oo, atol=0.0)
+    mk.same(f"{lab}: the in-place spelling returns the network itself", r is t3, True)
+    check_value(mk, lab + " (in place, reversed list)", t3, out, want, sizes)
+    # the result fed to a second pass with the same outputs
+    if not p.startswith("F:"):
+        for q in ("R", "P") if p != "P" else ("R", "D"):
+            try:
+                t4 = apply_pass(t2, q, out, atol=0.0)
+            except P.Unsupported as e:
+                mk.note(f"skipped: {p} ; {q}: {e}")
+                continue
+            check_value(mk, f"{lab} ; then {q}", t4, out, want, sizes)
+
+
 # ====================================================================== cells beyond the certificate budget
 # Cells of the option grids above whose certificates (two QR + one SVD contract per bond, several bonds per
 # sweep) were not found within the per-obligation budget (Q-CERT 'unknown' / CPU timeout) in the build run.
